@@ -639,6 +639,9 @@ def run(report, prog, tier):
     rule_tt4_layout(report, prog)
     rule_tt2_memory_units(report, prog)
     rule_image_flush(report, prog)
+    from .c03 import rule_tlv_writer, rule_skip_set_complete
+    rule_tlv_writer(report, prog, rule='C01-R3')
+    rule_skip_set_complete(report, prog, rule='C01-R3')
     from .c03 import rule_control_tlv_dispatch
     rule_control_tlv_dispatch(report, prog, rule='C01-R3')
     rule_gate(report, prog)
